@@ -107,19 +107,29 @@ def main(ctx):
                 keep.append(c)
         msg = keep
     n = 0
-    for name, idx, mut in msg:
-        bad, closed = H.run_msg_case(name, H.FIELDS[name], idx, mut)
+    # channel requests are also sent pipelined behind requests that complete
+    # asynchronously (they are then served from the channel's request queue)
+    msg = [(a, b, c, False) for a, b, c in msg] + \
+        [(a, b, c, True) for a, b, c in msg
+         if H.TEMPLATES[a][1] in ('CH', 'CH0')]
+    for name, idx, mut, piped in msg:
+        bad, closed = H.run_msg_case(name, H.FIELDS[name], idx, mut,
+                                     pipelined=piped)
         n += 1
-        ctx.count(('msg', name, idx, mut), nontrivial=True)
+        ctx.count(('msg', name, idx, mut, piped), nontrivial=True)
         if n % 61 == 1:
             ctx.sample({'message': name, 'field': idx, 'mutation': mut,
                         'connection_closed': closed})
         if bad:
             ctx.violation({'module': 'Grammar', 'message': name,
-                           'field': idx, 'mutation': mut},
-                          f'{name} field {idx} {mut}: ' + '; '.join(bad[:2]),
+                           'field': idx, 'mutation': mut,
+                           'pipelined': piped},
+                          f'{name} field {idx} {mut}' +
+                          (' (pipelined behind agent / X11 requests)'
+                           if piped else '') + ': ' + '; '.join(bad[:2]),
                           replay={'kind': 'msg', 'message': name,
-                                  'field': idx, 'mutation': mut})
+                                  'field': idx, 'mutation': mut,
+                                  'pipelined': piped})
     # ---- DER ----
     der = cases(ctx, 'der')
     ctx.require(len(der) > 500, f'DER cases: {len(der)}')
@@ -154,7 +164,7 @@ def main(ctx):
     # seeded byte-level mutation of the structured inputs (plain robustness)
     import struct
     for i in range(40 if quick else 600):
-        name, idx, mut = rnd.choice(msg)
+        name, idx, mut, _ = rnd.choice(msg)
         from harness.drivers.hostile import build, TEMPLATES
         body = bytearray(build(name, H.FIELDS[name], idx, mut, chan=0))
         for _ in range(rnd.randrange(1, 4)):
